@@ -281,11 +281,14 @@ def close(a, b, tol=1e-9):
 
 
 def full_oscillations(c, o):
-    """Number of full oscillations of the band-passed signal (reference kernel, inside the unpadded stretch):
-    same-direction zero crossings minus one. C01 quantifies over signals with at least three."""
+    """Number of full oscillations of the band-passed signal (reference kernel) inside the analysed stretch, i.e.
+    beyond the requested boundary on both sides: same-direction zero crossings minus one. C01 quantifies over
+    signals with at least three (extrema within the boundary are discarded by request, so oscillations there
+    cannot count)."""
     rf = o['ref']
     n, padn = len(c['sig']), rf['padn']
-    bits = [(rf['pos'] >> i) & 1 for i in range(padn, min(padn + n, rf['npos']))]
+    b = max(int(resolved(c)['boundary']), 0)
+    bits = [(rf['pos'] >> i) & 1 for i in range(padn + b + 1, min(padn + n - b - 1, rf['npos']))]
     rises = sum(1 for a, b in zip(bits, bits[1:]) if not a and b)
     decays = sum(1 for a, b in zip(bits, bits[1:]) if a and not b)
     return max(rises, decays) - 1
@@ -449,8 +452,9 @@ def oracle_labels_cycles(c, o):
     rows = unjson(o['rows'])
     rs = resolved(c)
     q = [all(r['burst'][k] > rs['thr'][k] for k in range(4)) for r in rows]
-    q[0] = False
-    q[-1] = False
+    if q:
+        q[0] = False
+        q[-1] = False
     want = spec_minrun(q, rs['n'])
     got = [r['is_burst'] for r in rows]
     if got != want:
